@@ -50,7 +50,7 @@ type params struct {
 }
 
 func (*prop) Cases(seed int64, tier string) []core.Case {
-	nc, n := 16, 3
+	nc, n := 16, 10
 	var cs []core.Case
 	if tier == "thorough" {
 		nc, n = 64, 24
